@@ -151,13 +151,15 @@ class HarnessAbort(BaseException):
 
 
 RUN_TAPE_BUDGET = 30_000
+RETRY_FACTOR = 15        # a case that exhausts the budget is run once more with this many times the budget before it is called ABORT
 LAST = {}              # observations of the most recent auth_impl call (tapes handed to run_tape)
 CASE_SECONDS = 6.0          # generous: a loaded machine must never turn a slow case into an ABORT (the call budget is the deterministic bound)
 
 
 class Capture:
     """Wraps functions.run_tape to capture the (tape, stack, cache) of top-level runs."""
-    def __init__(self, F):
+    def __init__(self, F, factor=1):
+        self.factor = factor
         self.F = F; self.depth = 0; self.tops = []
         self.datas = []          # bytes of every tape handed to run_tape, in order (first 256)
         self.orig = F.run_tape
@@ -166,15 +168,16 @@ class Capture:
         orig = self.orig
         cap.calls = 0
         import time as _t
-        cap.deadline = _t.time() + CASE_SECONDS
+        cap.deadline = _t.time() + CASE_SECONDS * cap.factor
+        budget = RUN_TAPE_BUDGET * cap.factor
         def run_tape(tape, stack, cache, additional_flags={}):
             if cap.depth == 0:
                 cap.tops.append((tape, stack, cache))
             cap.calls += 1
             if len(cap.datas) < 256:
                 cap.datas.append(bytes(tape.data))
-            if cap.calls > RUN_TAPE_BUDGET or (cap.calls & 255 == 0 and _t.time() > cap.deadline):
-                cap.calls = RUN_TAPE_BUDGET + 1
+            if cap.calls > budget or (cap.calls & 255 == 0 and _t.time() > cap.deadline):
+                cap.calls = RUN_TAPE_BUDGET * RETRY_FACTOR * 2
                 raise HarnessAbort('run_tape budget')
             cap.depth += 1
             try:
@@ -250,30 +253,44 @@ def render(status, stack, cache, log, cnt, rand):
 
 
 def run_impl(cfg: Cfg, cache_in: dict, script: bytes) -> str:
+    o = _run_impl(cfg, cache_in, script, 1)
+    if o.startswith('ABORT'):
+        o = _run_impl(cfg, cache_in, script, RETRY_FACTOR)      # legitimately heavy (but terminating) scripts exist: give them room once
+    return o
+
+
+def _run_impl(cfg: Cfg, cache_in: dict, script: bytes, factor: int) -> str:
     """run_script on the implementation, rendered like the driver's reply."""
     cache_in = copy.deepcopy(cache_in)      # a run must never be able to disturb the case for later runs
-    with Env(cfg) as env, Capture(env.F) as cap:
+    with Env(cfg) as env, Capture(env.F, factor) as cap:
         F = env.F
         try:
             tape, stack, cache = F.run_script(
                 script, cache_vals=cache_in, contracts=env.contracts(), additional_flags=cfg.additional_flags(),
                 plugins=env.plugins(), stack_max_items=cfg.max_items, stack_max_item_size=cfg.max_item_size,
                 callstack_limit=cfg.call_limit)
-            if cap.calls > RUN_TAPE_BUDGET:
+            if cap.calls > RUN_TAPE_BUDGET * factor:
                 return 'ABORT stack=? cache=? ret=0 plog=- taint=? cnt=0 rand=0'
             return render('OK', stack, cache, env.log, tape.callstack_count, env.rand)
         except BaseException as e:
             if isinstance(e, (KeyboardInterrupt, SystemExit)):
                 raise
             st, ca = (cap.tops[0][1], cap.tops[0][2]) if cap.tops else (None, None)
-            if cap.calls > RUN_TAPE_BUDGET:
+            if cap.calls > RUN_TAPE_BUDGET * factor:
                 return 'ABORT stack=? cache=? ret=0 plog=- taint=? cnt=0 rand=0'
             return render('ERR:' + type(e).__name__, st, ca, env.log, 0, env.rand)
 
 
 def auth_impl(cfg: Cfg, cache_in: dict, scripts) -> str:
+    o = _auth_impl(cfg, cache_in, scripts, 1)
+    if o.startswith('RAISED:HarnessAbort'):
+        o = _auth_impl(cfg, cache_in, scripts, RETRY_FACTOR)
+    return o
+
+
+def _auth_impl(cfg: Cfg, cache_in: dict, scripts, factor: int) -> str:
     cache_in = copy.deepcopy(cache_in)
-    with Env(cfg) as env, Capture(env.F) as cap:
+    with Env(cfg) as env, Capture(env.F, factor) as cap:
         F = env.F
         try:
             v = F.run_auth_scripts(list(scripts), cache_in, env.contracts(), env.plugins(),
